@@ -229,6 +229,15 @@ def run(ctx):
     ctx.attempt(_r1_r2_fkm)
     ctx.attempt(_r1_r2_fkm_nonlinear)
     ctx.attempt(_r3_conservation)
+    ctx.attempt(_r4_turns)
+
+
+def _r4_turns(ctx):
+    """The turning-point sequence the kernels consume: find_turns decides reversal and plateau only by exact sign tests of
+    first differences (D*D < 0, D == 0) - no tolerance, no rounding, no sign-dependent selection (analysis shared with R-C03-1)."""
+    ctx.rule("R-C02-4", floor=3, what="find_turns decides turning points by exact sign tests of first differences only")
+    from .c03 import type_find_turns
+    type_find_turns(ctx)
 
 
 # --------------------------------------------------------------------------------- kernels
@@ -694,6 +703,15 @@ def _closing_if(tree, fname):
 
 def variants():
     out = []
+
+    def isclose_plateau(tree):
+        f = find_func(tree, "find_turns")
+        for n in ast.walk(f):
+            if isinstance(n, ast.Compare) and isinstance(n.ops[0], ast.Eq) and isinstance(n.comparators[0], ast.Constant) \
+                    and n.comparators[0].value == 0:
+                return replace_node(n, parse_expr("np.isclose(%s, 0.0)" % ast.unparse(n.left)))
+        return False
+    out.append(witness("plateau detection with np.isclose", "src/pylife/stress/rainflow/general.py", isclose_plateau, "R-C02-4"))
 
     def four_strict(tree):
         f, br = _closing_if(tree, "fourpoint_loop")
